@@ -51,6 +51,7 @@ inductive Expr
   | tuple (xs : List Expr)
   | index (e : Expr) (i : Int)
   | comp (elt : Expr) (x : String) (iter : Expr)      -- `[elt for x in iter]` / a generator expression
+  | compIf (elt : Expr) (x : String) (iter : Expr) (cond : Expr)   -- `[elt for x in iter if cond]`
   | fstr                                               -- an f-string: some string (its text is never looked at)
   | unsupported (what : String)
   deriving Repr, Inhabited
@@ -344,6 +345,12 @@ def eval (env : Env) (vs : Vars) : Expr → Val
   | .comp elt x iter =>
       match (eval env vs iter).elems? with
       | some vals => .list (vals.map (fun v => eval env (vs.set x v) elt))
+      | none => .err "comprehension over a non-sequence"
+  | .compIf elt x iter cond =>
+      match (eval env vs iter).elems? with
+      | some vals =>
+          .list ((vals.filter (fun v => (eval env (vs.set x v) cond).truthy == some true)).map
+            (fun v => eval env (vs.set x v) elt))
       | none => .err "comprehension over a non-sequence"
   | .fstr => .str "<f-string>"
   | .unsupported what => .err ("unsupported expression: " ++ what)
